@@ -37,6 +37,7 @@ def counters_cfg(rng: random.Random, tier: str) -> gen.GenCfg:
         unlinked_head=rng.choice([0, 0, 1, 2, 3]), bwd_thread=rng.random() < 0.2,
         max_children=rng.choice([3, 4]),
         corr_stride=rng.choice([100, 0, 0]), p_unlisted_launch=rng.choice([0.0, 0.15]),
+        big_vocab=rng.random() < 0.2,
         corr_base=rng.choice([100, 100, 1, 0]),          # correlation ids may start at 0 (a valid id, not "missing")
     )
 
